@@ -18,9 +18,16 @@
     either case (so %2F and %2f are equivalent spellings); both well-formed.
 
     Open findings and their guards (conditions on the input, C08/Spec.v):
-      C08-F1 [guard_F1 rules p p']  a literal segment of some path expression compares
-                                    differently with the two spellings
-      C08-F4 [guard_F4 p]           a byte net/url does not accept in an encoded path *)
+      C08-F1 [guard_F1 rules p p']  some path expression of the rule set matches one of the two
+                                    spellings (literals byte for byte) and not the other
+      C08-F4 [guard_F4 p]           a byte net/url does not accept in an encoded path
+      C08-F6 [guard_F6 p]           (X-Forwarded-Uri only) a malformed escape
+
+    Entry points: [serve] = heimdall's own HTTP server (origin-form target), [serve_envoy] = Envoy
+    ext_authz, [serve_xfu] = HTTP server with the target handed over in X-Forwarded-Uri (the
+    proxy's own request goes to [own]).  Inside the guard of C08-F1 everything below except
+    sections 1 and 5's invariance theorems still holds: only WHICH rule is found depends on the
+    spelling; the found rule always matches the path as it is spelled (section 4). *)
 From HV Require Import Base.Prelude Base.GoUrl Base.GoUrlFacts C08.Model C08.Proofs.
 
 Local Open Scope string_scope.
@@ -80,8 +87,10 @@ Theorem C08_reencoding_invariant_nonvacuous :
 Proof. exact reencoding_invariant_repaired_nonvacuous. Qed.
 Print Assumptions C08_reencoding_invariant_nonvacuous.
 
-(** a path with a malformed escape is refused with 400 before heimdall sees it
-    (so [reenc], which relates well-formed paths only, leaves nothing out) *)
+(** through heimdall's own HTTP server a path with a malformed escape is refused with 400
+    before heimdall sees it (so [reenc], which relates well-formed paths only, leaves nothing
+    out there; through Envoy a malformed path reaches the rules as it is, through
+    X-Forwarded-Uri see C08-F6) *)
 Theorem C08_malformed_rejected : forall fx rules dflt host q p,
   unescape p = None -> serve fx rules dflt host p q = BadRequest.
 Proof. exact malformed_rejected. Qed.
@@ -105,16 +114,6 @@ Theorem C08_off_rejects_encoded_slash : forall rules dflt host q p rid d cs up,
   d = false /\ exists r, In r rules /\ r_id r = rid /\ r_setting r <> Off.
 Proof. exact off_rejects_encoded_slash_repaired. Qed.
 Print Assumptions C08_off_rejects_encoded_slash.
-
-(** … it is answered with the precondition error when a default rule is
-    configured and every rule has `off` (unless net/http refuses the target) *)
-Theorem C08_off_answers_precondition : forall rules host q p,
-  enc_slash p = true ->
-  guard_F4 p = false ->
-  (forall r, In r rules -> r_setting r = Off) ->
-  serve repaired rules true host p q = Precondition \/ serve repaired rules true host p q = BadRequest.
-Proof. exact off_answers_precondition_repaired. Qed.
-Print Assumptions C08_off_answers_precondition.
 
 Theorem C08_off_rejects_encoded_slash_parametric : forall fx rules dflt host q p rid d cs up,
   enc_slash p = true ->
@@ -159,10 +158,9 @@ Print Assumptions C08_off_captures_decoded.
     the encoded slash (either case), which stays encoded" for every well-formed
     value — no guard *)
 Theorem C08_capture_decoding : forall st v,
-  wfenc v ->
-  unescape_capture repaired st v =
-  match st with On => unescape_or_empty v | _ => decode_keep_slash v end.
-Proof. exact capture_decoding_repaired. Qed.
+  wfenc v -> st <> On ->
+  unescape_capture repaired st v = decode_keep_slash v.
+Proof. exact capture_decoding_repaired_nd. Qed.
 Print Assumptions C08_capture_decoding.
 
 (** the place-holder technique used before 6d0a3af computed the same outside
@@ -261,3 +259,78 @@ Theorem C08_F4_envoy_upstream_refuted :
             u_rawpath u = "/files/a%2Fb^" /\ wire_path u = "/files/a/b%5E".
 Proof. exact F4_envoy_upstream_witness. Qed.
 Print Assumptions C08_F4_envoy_upstream_refuted.
+
+(** * 4. Which rule, which captured values, which answer — position by position
+
+    [accepted_spec rules p rid cs up] (C08/Proofs.v): the accepted request was matched by a rule
+    [r] with id [rid] through one of its path expressions [t] that matches the path as it is
+    spelled ([rmatch]); the captured values are exactly the segments at [t]'s wildcards (the rest of
+    the path for a free wildcard; [route_caps]), decoded as the rule's setting says ([spec_capture]:
+    `no_decode` keeps the encoded slash); an `off` rule never accepts a path with an encoded slash;
+    a `no_decode` rule sends upstream the request path as it is after its prefix rewriting
+    ([expected_wire]), whenever net/url writes that path unchanged. *)
+Theorem C08_accepted_request : forall rules dflt host q p rid cs up,
+  p <> "*" -> guard_F4 p = false ->
+  serve repaired rules dflt host p q = Accepted rid false cs up ->
+  accepted_spec rules p rid cs up.
+Proof. exact accepted_http. Qed.
+Print Assumptions C08_accepted_request.
+
+Theorem C08_accepted_request_envoy : forall rules dflt host q p rid cs up,
+  is_empty p = false -> wfenc p ->
+  serve_envoy repaired rules dflt host p q = Accepted rid false cs up ->
+  accepted_spec rules p rid cs up.
+Proof. exact accepted_envoy. Qed.
+Print Assumptions C08_accepted_request_envoy.
+
+Theorem C08_accepted_request_xfu : forall rules dflt host own q p rid cs up,
+  guard_F6 p = false -> guard_F4 p = false -> has_prefix "/" p = true ->
+  serve_xfu repaired rules dflt host own p q = Accepted rid false cs up ->
+  accepted_spec rules p rid cs up.
+Proof. exact accepted_xfu. Qed.
+Print Assumptions C08_accepted_request_xfu.
+
+(** the precondition answer, for mixed rule sets: if every path expression that matches the
+    path as it is spelled belongs to an `off` rule, a path with an encoded slash is answered with
+    the precondition error (400 from net/http aside) — or with "no rule" when no default rule is
+    configured and no expression accepts it *)
+Theorem C08_precondition_answer : forall rules dflt host q p,
+  p <> "*" -> guard_F4 p = false -> enc_slash p = true ->
+  (forall r t, In r rules -> In t (r_routes r) -> rmatch (rt_pat t) (segs_of p) = true -> r_setting r = Off) ->
+  serve repaired rules dflt host p q = Precondition \/ serve repaired rules dflt host p q = BadRequest \/
+  (dflt = false /\ serve repaired rules dflt host p q = NoRule).
+Proof. exact precondition_http. Qed.
+Print Assumptions C08_precondition_answer.
+
+Theorem C08_precondition_answer_envoy : forall rules dflt host q p,
+  is_empty p = false -> enc_slash p = true ->
+  (forall r t, In r rules -> In t (r_routes r) -> rmatch (rt_pat t) (segs_of p) = true -> r_setting r = Off) ->
+  serve_envoy repaired rules dflt host p q = Precondition \/
+  (dflt = false /\ serve_envoy repaired rules dflt host p q = NoRule).
+Proof. exact precondition_envoy. Qed.
+Print Assumptions C08_precondition_answer_envoy.
+
+(** * 5. Delivery through X-Forwarded-Uri (decision mode behind a proxy) *)
+
+Theorem C08_reencoding_invariant_xfu : forall rules dflt host own q p p',
+  reenc p p' -> has_prefix "/" p = true -> guard_F1 rules p p' = false ->
+  decision_eq (serve_xfu repaired rules dflt host own p q) (serve_xfu repaired rules dflt host own p' q).
+Proof. exact reencoding_invariant_xfu_repaired. Qed.
+Print Assumptions C08_reencoding_invariant_xfu.
+
+Theorem C08_off_rejects_encoded_slash_xfu : forall rules dflt host own q p rid d cs up,
+  enc_slash p = true -> guard_F6 p = false -> guard_F4 p = false -> has_prefix "/" p = true ->
+  serve_xfu repaired rules dflt host own p q = Accepted rid d cs up ->
+  d = false /\ exists r, In r rules /\ r_id r = rid /\ r_setting r <> Off.
+Proof. exact off_rejects_encoded_slash_xfu. Qed.
+Print Assumptions C08_off_rejects_encoded_slash_xfu.
+
+(** C08-F6 (open): a forwarded target with a malformed escape is silently replaced by the target
+    of the proxy's own request, so a path with an encoded slash is accepted by the default rule;
+    with the candidate repair fixes/C08-F6.diff it is answered with the precondition error *)
+Theorem C08_F6_refuted :
+  enc_slash "/a%2Fb%zz" = true /\ guard_F6 "/a%2Fb%zz" = true /\ guard_F4 "/a%2Fb%zz" = false /\
+  serve_xfu repaired [] true "h" "/zz-own" "/a%2Fb%zz" "" = Accepted "default" true [] None /\
+  serve_xfu repaired_F6 [] true "h" "/zz-own" "/a%2Fb%zz" "" = Precondition.
+Proof. exact F6_refuted. Qed.
+Print Assumptions C08_F6_refuted.
